@@ -149,7 +149,105 @@ func genC18(repo string) (string, error) {
 	if err := o.skeleton(rm, "RuleManager", "tryCommitPatch", "skel_rm_tryCommitPatch", goast.SkelOpt{Conds: true, Calls: set("trim", "savePatch", "commit")}); err != nil {
 		return "", err
 	}
+	// ---- copies: what a getter hands out must share no mutable storage with the served value ----
+	// (the HTTP API unmarshals the request INTO what Server.Get*Config returned and only then calls Set*Config, which validates)
+	for _, t := range []string{"Config", "ScheduleConfig", "ReplicationConfig", "PDServerConfig", "LabelPropertyConfig", "ReplicationModeConfig"} {
+		if err := c18Stmts(&o, cf, t, "Clone", "copy_"+t+"_Clone", nil); err != nil {
+			return "", err
+		}
+	}
+	for _, t := range []string{"ScheduleConfig", "ReplicationConfig", "PDServerConfig", "ReplicationModeConfig", "DRAutoSyncReplicationConfig"} {
+		if err := c18RefFields(&o, cf, t, "reffields_"+t); err != nil {
+			return "", err
+		}
+	}
+	for _, fn := range []string{"GetScheduleConfig", "GetReplicationConfig", "GetPDServerConfig", "GetLabelProperty", "GetReplicationModeConfig", "GetClusterVersion"} {
+		if err := c18Stmts(&o, sf, "Server", fn, "getter_"+fn, nil); err != nil {
+			return "", err
+		}
+	}
+	if err := c18Stmts(&o, sf, "Server", "GetConfig", "getter_GetConfig_sections", func(src string) bool { return strings.HasPrefix(src, "cfg") }); err != nil {
+		return "", err
+	}
+	af, err := goast.Load(repo, "server/api/config.go")
+	if err != nil {
+		return "", err
+	}
+	for _, fn := range []string{"SetSchedule", "SetReplication", "SetReplicationMode"} {
+		if err := c18Stmts(&o, af, "confHandler", fn, "api_"+fn, func(src string) bool {
+			return strings.Contains(src, "h.svr.") || strings.Contains(src, "ReadJSON")
+		}); err != nil {
+			return "", err
+		}
+	}
+	for _, fn := range []string{"Post", "updateSchedule", "updateReplication", "updateReplicationModeConfig", "updatePDServerConfig", "mergeConfig"} {
+		if err := c18Stmts(&o, af, "confHandler", fn, "api_"+fn, func(src string) bool {
+			return strings.HasPrefix(src, "cfg := h.svr.") || strings.Contains(src, "h.mergeConfig(") || strings.HasPrefix(src, "if updated") ||
+				strings.Contains(src, "json.Unmarshal(data, v)")
+		}); err != nil {
+			return "", err
+		}
+	}
 	return o.sb.String(), nil
+}
+
+// c18Stmts emits the source text (whitespace-normalised) of the top-level statements of a function body, optionally
+// only those selected by keep; an if statement is represented by its header (init; cond) only when its body is long.
+func c18Stmts(o *out, f *goast.File, recv, name, coqName string, keep func(src string) bool) error {
+	fd, err := f.Func(recv, name)
+	if err != nil {
+		return err
+	}
+	var xs []string
+	for _, st := range fd.Body.List {
+		src := f.Src(st)
+		if keep != nil && !keep(src) {
+			continue
+		}
+		if len(src) > 200 {
+			src = src[:200] + " ..."
+		}
+		xs = append(xs, goast.Q(src))
+	}
+	fmt.Fprintf(&o.sb, "Definition %s : list string := (* %s: (%s).%s *)\n  %s.\n", coqName, f.Path, recv, name, goast.CoqList(xs))
+	return nil
+}
+
+// c18RefFields lists the fields of a struct type whose type is not a basic value type (bool, string, numbers): each of them is
+// a slice, map, pointer, interface or a named type that may be one, i.e. something a shallow `cfg := *c` copy may share.
+func c18RefFields(o *out, f *goast.File, typ, coqName string) error {
+	basic := set("bool", "string", "int", "int8", "int16", "int32", "int64", "uint", "uint8", "uint16", "uint32", "uint64", "float32", "float64")
+	var xs []string
+	found := false
+	ast.Inspect(f.AST, func(n ast.Node) bool {
+		ts, ok := n.(*ast.TypeSpec)
+		if !ok || ts.Name.Name != typ {
+			return true
+		}
+		st, ok := ts.Type.(*ast.StructType)
+		if !ok {
+			return false
+		}
+		found = true
+		for _, fl := range st.Fields.List {
+			t := f.Src(fl.Type)
+			if basic[t] {
+				continue
+			}
+			for _, nm := range fl.Names {
+				xs = append(xs, goast.Q(nm.Name+": "+t))
+			}
+			if len(fl.Names) == 0 {
+				xs = append(xs, goast.Q("(embedded): "+t))
+			}
+		}
+		return false
+	})
+	if !found {
+		return fmt.Errorf("%s: anchor type %s not found", f.Path, typ)
+	}
+	fmt.Fprintf(&o.sb, "Definition %s : list string := (* %s: fields of %s that are not plain values *)\n  %s.\n", coqName, f.Path, typ, goast.CoqList(xs))
+	return nil
 }
 
 func c18Registered(repo string) ([]string, error) {
